@@ -12,6 +12,7 @@ mod mock;
 mod ldro;
 mod frame;
 mod maccmd;
+mod macops;
 
 fn dispatch(op: &str, a: &[&str]) -> String {
     match op {
@@ -31,6 +32,14 @@ fn main() {
     for line in stdin.lock().lines() {
         let line = line.unwrap();
         let toks: Vec<&str> = line.split_whitespace().collect();
+        if !toks.is_empty() && toks[0] == "mac" {
+            let r = catch_unwind(AssertUnwindSafe(|| macops::run_history(&line)));
+            match r {
+                Ok(s) => writeln!(out, "{s}").unwrap(),
+                Err(_) => writeln!(out, "PANIC").unwrap(),
+            }
+            continue;
+        }
         if toks.is_empty() {
             writeln!(out).unwrap();
             continue;
